@@ -166,12 +166,13 @@ def parse_transcript(txt):
     return out
 
 
-def run_side(cmd, cases, env=None, tag="x"):
+def run_side(cmd, cases, env=None, tag="x", nproc=None):
     """cases: list of (id, lines). Runs in NPROC chunks; returns {id: [out lines]}"""
     if not cases:
         return {}
     rd = os.path.join(BUILD, "run"); os.makedirs(rd, exist_ok=True)
-    chunks = [cases[i::NPROC] for i in range(NPROC)]
+    nproc = nproc or NPROC
+    chunks = [cases[i::nproc] for i in range(nproc)]
     chunks = [c for c in chunks if c]
     def one(ix_chunk):
         ix, chunk = ix_chunk
@@ -185,7 +186,7 @@ def run_side(cmd, cases, env=None, tag="x"):
         os.remove(p)
         return parse_transcript(r.stdout)
     res = {}
-    with cf.ThreadPoolExecutor(NPROC) as ex:
+    with cf.ThreadPoolExecutor(nproc) as ex:
         for d in ex.map(one, enumerate(chunks)):
             res.update(d)
     return res
@@ -343,6 +344,27 @@ def main():
         ids.add(c["id"])
     impl = run_impl(cases)
     model = run_model(cases)
+    # a wall-clock timeout (or a missing transcript) on a loaded machine is not a fault of the library:
+    # such cases are run again, two at a time, with a 15x limit, and only that result counts
+    def timed_out(c):
+        return any(l.startswith("FAULT timeout") for l in impl.get(c["id"]) or []) \
+            or (exe and impl.get(c["id"]) is None) or (have_driver and model.get(c["id"]) is None)
+
+    def rerun(cs):
+        pairs = [(c["id"], c["lines"]) for c in cs]
+        if exe:
+            impl.update(run_side([exe], pairs, dict(ASAN_ENV, VH_TIMEOUT_SCALE="6"), "h2", nproc=4))
+        if have_driver:
+            model.update(run_side([driver, fam.FAMILY], pairs, None, "d2", nproc=4))
+    again = [c for c in cases if timed_out(c)]
+    if again:
+        first = sorted(again, key=lambda c: len(c["lines"]))[:12]
+        rerun(first)
+        rest = [c for c in again if c not in first]
+        if rest and not all(timed_out(c) for c in first):   # the machine was busy: the others deserve a second run too
+            rerun(rest)
+        log.append(f"{len(again)} case(s) timed out or gave no transcript in the parallel pass; after re-running alone "
+                   f"with a 6x limit {sum(1 for c in again if timed_out(c))} still do")
     known = load_known()
     open_sigs = {(k["property"], k["signature"]): k for k in known.get("open", [])}
     diffs = []; viols = []; known_hit = {}; nontriv = set(); dist = {}
